@@ -984,3 +984,92 @@ Example C11_gen_sub_example :
 Proof. vm_compute. first [exact I | split; reflexivity]. Qed.
 
 End GenAgreeSubtotals_C11.
+
+(* ---- WIRING-APPENDIX:BEGIN (generated by tools/gen_wiring_props.py; do not edit) ---- *)
+From CC Require Proofs.GenAgreeWiring_C11.
+Section Wiring_C11.
+Import Coq.Lists.List Coq.ZArith.ZArith Coq.Strings.String CC.Base.WiringExp CC.Gen.WiringSrc.
+Import ListNotations.
+Local Open Scope string_scope.
+
+Theorem C11_wiring_Slice_column_proportions_moe :
+  wsrc_Slice_column_proportions_moe = Some (WBin "*" (WGlobal "Z_975") (WSelf "column_std_err")).
+Proof. exact Proofs.GenAgreeWiring_C11.gen_wiring_Slice_column_proportions_moe. Qed.
+Print Assumptions C11_wiring_Slice_column_proportions_moe.
+
+Theorem C11_wiring_Slice_column_proportion_variances :
+  wsrc_Slice_column_proportion_variances = Some (w_matrix_of "column_proportion_variances").
+Proof. exact Proofs.GenAgreeWiring_C11.gen_wiring_Slice_column_proportion_variances. Qed.
+Print Assumptions C11_wiring_Slice_column_proportion_variances.
+
+Theorem C11_wiring_Slice_column_std_dev :
+  wsrc_Slice_column_std_dev = Some (WCall (WAttr (WGlobal "np") "sqrt") [WSelf
+      "column_proportion_variances"] []).
+Proof. exact Proofs.GenAgreeWiring_C11.gen_wiring_Slice_column_std_dev. Qed.
+Print Assumptions C11_wiring_Slice_column_std_dev.
+
+Theorem C11_wiring_Slice_column_std_err :
+  wsrc_Slice_column_std_err = Some (w_matrix_of "column_std_err").
+Proof. exact Proofs.GenAgreeWiring_C11.gen_wiring_Slice_column_std_err. Qed.
+Print Assumptions C11_wiring_Slice_column_std_err.
+
+Theorem C11_wiring_Slice_row_proportions_moe :
+  wsrc_Slice_row_proportions_moe = Some (WBin "*" (WGlobal "Z_975") (WSelf "row_std_err")).
+Proof. exact Proofs.GenAgreeWiring_C11.gen_wiring_Slice_row_proportions_moe. Qed.
+Print Assumptions C11_wiring_Slice_row_proportions_moe.
+
+Theorem C11_wiring_Slice_row_proportion_variances :
+  wsrc_Slice_row_proportion_variances = Some (w_matrix_of "row_proportion_variances").
+Proof. exact Proofs.GenAgreeWiring_C11.gen_wiring_Slice_row_proportion_variances. Qed.
+Print Assumptions C11_wiring_Slice_row_proportion_variances.
+
+Theorem C11_wiring_Slice_row_std_dev :
+  wsrc_Slice_row_std_dev = Some (WCall (WAttr (WGlobal "np") "sqrt") [WSelf
+      "row_proportion_variances"] []).
+Proof. exact Proofs.GenAgreeWiring_C11.gen_wiring_Slice_row_std_dev. Qed.
+Print Assumptions C11_wiring_Slice_row_std_dev.
+
+Theorem C11_wiring_Slice_row_std_err :
+  wsrc_Slice_row_std_err = Some (w_matrix_of "row_std_err").
+Proof. exact Proofs.GenAgreeWiring_C11.gen_wiring_Slice_row_std_err. Qed.
+Print Assumptions C11_wiring_Slice_row_std_err.
+
+Theorem C11_wiring_Slice_table_proportions_moe :
+  wsrc_Slice_table_proportions_moe = Some (WBin "*" (WGlobal "Z_975") (WSelf "table_std_err")).
+Proof. exact Proofs.GenAgreeWiring_C11.gen_wiring_Slice_table_proportions_moe. Qed.
+Print Assumptions C11_wiring_Slice_table_proportions_moe.
+
+Theorem C11_wiring_Slice_table_proportion_variances :
+  wsrc_Slice_table_proportion_variances = Some (w_matrix_of "table_proportion_variances").
+Proof. exact Proofs.GenAgreeWiring_C11.gen_wiring_Slice_table_proportion_variances. Qed.
+Print Assumptions C11_wiring_Slice_table_proportion_variances.
+
+Theorem C11_wiring_Slice_table_std_dev :
+  wsrc_Slice_table_std_dev = Some (WCall (WAttr (WGlobal "np") "sqrt") [WSelf
+      "table_proportion_variances"] []).
+Proof. exact Proofs.GenAgreeWiring_C11.gen_wiring_Slice_table_std_dev. Qed.
+Print Assumptions C11_wiring_Slice_table_std_dev.
+
+Theorem C11_wiring_Slice_table_std_err :
+  wsrc_Slice_table_std_err = Some (w_matrix_of "table_std_err").
+Proof. exact Proofs.GenAgreeWiring_C11.gen_wiring_Slice_table_std_err. Qed.
+Print Assumptions C11_wiring_Slice_table_std_err.
+
+Theorem C11_wiring_Strand_table_proportion_moes :
+  wsrc_Strand_table_proportion_moes = Some (WBin "*" (WGlobal "Z_975") (WSelf
+      "table_proportion_stderrs")).
+Proof. exact Proofs.GenAgreeWiring_C11.gen_wiring_Strand_table_proportion_moes. Qed.
+Print Assumptions C11_wiring_Strand_table_proportion_moes.
+
+Theorem C11_wiring_Strand_table_proportion_stddevs :
+  wsrc_Strand_table_proportion_stddevs = Some (w_vector_of "table_proportion_stddevs").
+Proof. exact Proofs.GenAgreeWiring_C11.gen_wiring_Strand_table_proportion_stddevs. Qed.
+Print Assumptions C11_wiring_Strand_table_proportion_stddevs.
+
+Theorem C11_wiring_Strand_table_proportion_stderrs :
+  wsrc_Strand_table_proportion_stderrs = Some (w_vector_of "table_proportion_stderrs").
+Proof. exact Proofs.GenAgreeWiring_C11.gen_wiring_Strand_table_proportion_stderrs. Qed.
+Print Assumptions C11_wiring_Strand_table_proportion_stderrs.
+
+End Wiring_C11.
+(* ---- WIRING-APPENDIX:END ---- *)
